@@ -818,6 +818,9 @@ class Model(Object):
                     context(partial(setattr, reaction, "_model", self))
                     context(partial(self.reactions.add, reaction))
 
+                # The variables must not remain part of the objective expression,
+                # which would re-create them when the expression is used again.
+                self.solver.objective.set_linear_coefficients({forward: 0, reverse: 0})
                 self.remove_cons_vars([forward, reverse])
                 self.reactions.remove(reaction)
                 reaction._model = None
